@@ -63,4 +63,14 @@ SERVER_RULE = ('sequential server histories under testing/synctest: 1-5 clients 
 SERVER_TRUSTED = ['lib/server/{run,netio,utils}.go and lib/server/replies are modelled by hand in coq/model/Server.v over the reference table of C11',
                   'testing/synctest virtual clock; in-memory sockets (lib/rsocks/vnet_verif.go) instead of AF_PACKET; ARP responders simulated by the harness',
                   'handlers run one at a time in these histories (the harness waits for quiescence); interleavings are covered by the theorems, not by the runs']
-PROPS['SRV'] = dict(tests=['TestServerHistories'], monitor_tags=set(), panic_is_violation=set(), rule=SERVER_RULE, trusted=SERVER_TRUSTED, timeout={'quick': 900, 'thorough': 14000})
+_SRV_DEBUG = dict(tests=['TestServerHistories'], monitor_tags=set(), panic_is_violation=set(), rule=SERVER_RULE, trusted=SERVER_TRUSTED, timeout={'quick': 900, 'thorough': 14000})
+
+def _srv(mon, extra_tests=(), **kw):
+    d = dict(tests=['TestServerHistories'] + list(extra_tests), monitor_tags={mon}, panic_is_violation=set(), rule=SERVER_RULE,
+             trusted=list(SERVER_TRUSTED), timeout={'quick': 900, 'thorough': 14000}, env={'VERIF_MONITORS': str(mon)},
+             assumptions=['each exported *IPDB method is one atomic step (gofacts: gf_ipdb_methods_locked)', 'virtual time stands for wall-clock time'])
+    d.update(kw)
+    return d
+
+for _pid, _mon in (('C01', 201), ('C02', 202), ('C03', 203), ('C04', 204), ('C05', 205), ('C06', 206), ('C08', 208), ('C10', 210)):
+    PROPS[_pid] = _srv(_mon)
